@@ -699,7 +699,7 @@ class ExprMixin:
                     # the same fact in membership form (sequence theory does not link indices and containment by itself)
                     # (image direction only: every element's value is contained; the converse needs an existential under the
                     #  quantifier, which made unrelated obligations time out)
-                    if val.s in (STR, BYTES, INT) and self.spec.ns.get("COMPREHENSION_IMAGE", False):      # opt-in per spec: it slows unrelated proofs
+                    if self.spec.ns.get("COMPREHENSION_IMAGE", False):      # opt-in per spec: it slows unrelated proofs
                         s1.assume(z3.ForAll([q.t], z3.Implies(member(q.t), z3.Contains(out.t, z3.Unit(val.t)))))
                 else:
                     y = val.s.fresh("y")
